@@ -9,10 +9,12 @@ ALL = ["C%02d" % i for i in range(1, 20)]
 
 WG_NOTE = ("Trusted: TLC, the Ideal layer of spec/WGraph.tla as a reading of the statement, the harness' abstract-model->protobuf conversion and "
            "positional renaming of operator nodes. Bounded: universe of 225 (quick) / 400+1728 (thorough) models x all DFS root orders on the Impl "
-           "layer; real code: all root orders forced for graphs with <= 6 non-terminal nodes, else sampled; random larger models validated as traces.")
+           "layer; real code: all root orders forced for graphs with <= 6 non-terminal nodes, else sampled; random larger models validated as traces: "
+           "the logged DFS roots resolve the schedule and every logged step of the weight assignment (hook VerifOnWeightStep: edge / node / root "
+           "returned - cycle set, error class, weights with placeholders, wildcards, whole state at a root) must be what the Impl layer holds at that point.")
 
 CHECKS = {
-    "C04": dict(level="model_checking", design="4/C04, 3.3", technique="TLC model checking of a PlusCal transcription of AssignWeights against a declarative Ideal layer; replay of every TLC outcome into the real builder with forced DFS root orders; trace validation of logged root orders",
+    "C04": dict(level="model_checking", design="4/C04, 3.3", technique="TLC model checking of a PlusCal transcription of AssignWeights against a declarative Ideal layer; replay of every TLC outcome into the real builder with forced DFS root orders; trace validation of logged root orders and of every logged step of the weight assignment",
                 text="TLC explores every model of a bounded universe under every DFS root order on the Impl layer (PlusCal transcription of AssignWeights) and checks WeightsAreTrueMaxHops, EdgeWeightIsTargetPlusHop, NoPlaceholderVisible, NoEmptyWeights against the declarative Ideal layer; every predicted outcome is replayed on the real builder with the root order forced through the verif hook, and logged natural orders of random larger models are validated by TLC. Real node/edge weights are compared with the Ideal weights.",
                 note=WG_NOTE),
     "C05": dict(level="model_checking", design="4/C05, 3.3", technique="TLC model checking (all models of a universe x all DFS root orders) + forced-order replay on the real builder + trace validation",
